@@ -395,6 +395,22 @@ Section Pools.
       let! amt := of_opt (chk_int (rr_aout t - fee)) in
       Ok ({| bk := b; pools := pools s1 |}, {| sr_tree := t; sr_fee := fee; sr_amount := amt |}).
 
+    (* Keeper.SwapIncomingFund (x/swap/keeper/ibc.go), the settlement of a swap that arrives over
+       IBC: the swap module account [swapper] holds the incoming amount [amt_in] of the route's
+       input denom (nothing else is assumed of it), runs the keeper swap in its own name with
+       max_amount_in = amount_in = [amt_in] and [x] = min_amount_out | amount_out, then hands
+       the net output to [receiver]. The route was validated by the middleware. The response's
+       third field is that net output. *)
+    Definition swap_incoming_fund (swapper receiver : Z) (prov : option Z) (out : bool) (r : route)
+      (amt_in x : Z) (s : st) : res (st * swap_resp) :=
+      let! (s1, resp) := (if out then keeper_swap_out swapper prov r amt_in x s
+                          else keeper_swap_in swapper prov r amt_in x s) in
+      let t := sr_tree resp in
+      let! net := of_opt (chk_int (rr_aout t - sr_fee resp)) in
+      if net <? 0 then Panic else
+      let! b := (if net =? 0 then Ok (bk s1) else bank_send (bk s1) swapper receiver (rr_dout t) net) in
+      Ok ({| bk := b; pools := pools s1 |}, {| sr_tree := t; sr_fee := sr_fee resp; sr_amount := net |}).
+
     Definition msg_swap_out (sender : Z) (prov : option Z) (r : route) (maxin aout : Z) (s : st)
       : res (st * swap_resp) :=
       let! _ := validate v r in
